@@ -44,7 +44,7 @@ def spans_tla(sps, sep=", "):
 
 
 # ------------------------------------------------------------------ B3: exhaustive configurations
-def data_exhaustive(spans, maxlen, batches, buffers, maxruns, runflags, clean_on, same_files=False):
+def data_exhaustive(spans, maxlen, batches, buffers, maxruns, runflags, clean_on, same_files=False, crashes=False):
     return {"StoreData": tlc.data_module("StoreData", {
         "Spans": spans_tla(spans, ",\n   "),
         "MaxLen": str(maxlen),
@@ -55,6 +55,7 @@ def data_exhaustive(spans, maxlen, batches, buffers, maxruns, runflags, clean_on
                                     for i, u in runflags) + "}",
         "CleanOn": tlc.tla(bool(clean_on)),
         "SameFiles": tlc.tla(bool(same_files)),
+        "Crashes": tlc.tla(bool(crashes)),
         "Traces": "<<>>"}, extends="Naturals, Sequences, FiniteSets, TLC")}
 
 
@@ -72,11 +73,11 @@ def cfg(invs, props=()):
         "".join("PROPERTY %s\n" % p for p in props)
 
 
-def exhaustive(spans, *, maxlen, batches, buffers=(0,), maxruns=1, runflags=((1, 0),), clean_on=False, same_files=False, invs=None,
+def exhaustive(spans, *, maxlen, batches, buffers=(0,), maxruns=1, runflags=((1, 0),), clean_on=False, same_files=False, crashes=False, invs=None,
                props=(), workers=16, timeout=3000, coverage=False, heap="8g"):
     """model-check Store.tla on a small universe; returns the TLCResult (violated names in .violated)"""
     return tlc.run_tlc("Store", cfg(invs or INVS_INGEST, props),
-                       data_exhaustive(spans, maxlen, batches, buffers, maxruns, runflags, clean_on, same_files),
+                       data_exhaustive(spans, maxlen, batches, buffers, maxruns, runflags, clean_on, same_files, crashes),
                        modules=["Store", "StoreProps"], workers=workers, timeout=timeout, coverage=coverage,
                        jvm="throughput", heap=heap)
 
@@ -205,7 +206,7 @@ def data_traces(scns, logs, twins=None):
             scn["B"], scn["buf"], ",\n     ".join(line_tla(d) for d in lines), ",\n     ".join(line_tla(d) for d in tw)))
     return {"StoreData": tlc.data_module("StoreData", {
         "Spans": "{}", "MaxLen": "0", "Batches": "{}", "Buffers": "{}", "MaxRuns": "0", "RunFlags": "{}",
-        "CleanOn": "TRUE", "SameFiles": "FALSE",
+        "CleanOn": "TRUE", "SameFiles": "FALSE", "Crashes": "FALSE",
         "Traces": "<<\n  " + ",\n  ".join(trs) + "\n>>"}, extends="Naturals, Sequences, FiniteSets, TLC")}
 
 
